@@ -210,10 +210,10 @@ def replay_quartet(case):
     if got.shape != want.shape:
         res["violations"].append("ElectronRepulsionIntegral.construct_array_contraction: shape %s, expected %s" % (got.shape, want.shape))
         return res
-    for n in range(4):
+    for n in range(4):                      # normalised with the shells' own norm_cont, as the assembly does
         shp = [1] * 8
-        shp[2 * n], shp[2 * n + 1] = norms[n].shape
-        got = got * norms[n].reshape(shp)
+        shp[2 * n], shp[2 * n + 1] = shells[n].norm_cont.shape
+        got = got * shells[n].norm_cont.reshape(shp)
     tol = 1e-6 * scale + 1e-12 * wantabs
     dev = np.abs(got - want)
     res["dev"] = float((dev / (scale + 1e-300)).max())
